@@ -253,7 +253,11 @@ func judge(t *treefs.Node, op treefs.Op, o outcome) (string, string, string) {
 func addressed(op treefs.Op) [][]string {
 	root, _ := treefs.ViewRoot(op.View)
 	var out [][]string
-	for _, p := range []string{op.P, op.Q} {
+	paths := []string{op.P}
+	if op.Kind == "Copy" || op.Kind == "CopyFile" || op.Kind == "CopyDirectory" {
+		paths = append(paths, op.Q) // only copies have a second argument ("" would address the root)
+	}
+	for _, p := range paths {
 		s, _ := treefs.Norm(p)
 		out = append(out, append(append([]string{}, root...), s...))
 	}
